@@ -145,14 +145,39 @@ func exportRebuilds() bool {
 		probeNote = "probe registration failed: " + err.Error()
 		return res
 	}
+	// two more aliases, added by UpdateDenomAlias after the registration: one to the probe coin, one to the FX pair (which
+	// InitGenesis treats specially: it registers FX itself when the imported pairs do not contain it)
+	want := map[string]string{"probealias": md.Base}
+	for alias, denom := range map[string]string{"probealiasb": md.Base, "probealiasfx": fxtypes.DefaultDenom} {
+		msg := &erc20types.MsgUpdateDenomAlias{Authority: lib.GovAuthority(), Denom: denom, Alias: alias}
+		if err := c.Try(func(ctx sdk.Context) error {
+			if e := msg.ValidateBasic(); e != nil {
+				return e
+			}
+			_, e := c.App.Erc20Keeper.UpdateDenomAlias(ctx, msg)
+			return e
+		}); err == nil {
+			want[alias] = denom
+		}
+	}
 	nc, err := c.ExportImport()
 	if err != nil {
 		probeNote = "probe export/import failed: " + err.Error()
 		return res
 	}
-	d, found := nc.App.Erc20Keeper.GetAliasDenom(nc.Ctx, "probealias")
-	res = found && d == md.Base
-	probeNote = fmt.Sprintf("code fact probed on the real application: InitGenesis rebuilds the erc20 alias index from the bank metadata = %v", res)
+	n := 0
+	var missing []string
+	for alias, denom := range want {
+		if d, found := nc.App.Erc20Keeper.GetAliasDenom(nc.Ctx, alias); found && d == denom {
+			n++
+		} else {
+			missing = append(missing, alias+"->"+denom)
+		}
+	}
+	sort.Strings(missing)
+	res = n == len(want)
+	probeNote = fmt.Sprintf("code fact probed on the real application: InitGenesis rebuilds the erc20 alias index from the bank metadata = %v (%d of %d aliases found after export + import: one set at registration, the others by UpdateDenomAlias on the coin and on FX%s)",
+		res, n, len(want), map[bool]string{true: "", false: "; missing " + strings.Join(missing, ", ")}[len(missing) == 0])
 	return res
 }
 
